@@ -38,7 +38,13 @@ def cases(tier, seed):
         g0 = glyphs[names[0]]
         if g0["cs"] and all(p[2] == "line" for p in g0["cs"][0]):
             g0["cs"][0].append(list(g0["cs"][0][0]))
-        ufo = {"glyphs": glyphs, "info": {"unitsPerEm": 1000, "ascender": 800, "descender": -200},
+        info_ = {"unitsPerEm": 1000, "ascender": 800, "descender": -200}
+        if k % 3 == 1:
+            # explicit default / nominal widths; one glyph is exactly as wide as the nominal width, another as the default
+            dw, nw = glyphs[names[0]]["w"] // 1024, (glyphs[names[-1]]["w"] // 1024) or 560
+            info_["postscriptDefaultWidthX"], info_["postscriptNominalWidthX"] = dw, nw
+            glyphs[names[-1]]["w"] = nw * 1024
+        ufo = {"glyphs": glyphs, "info": info_,
                "kerning": [[names[0], names[1], -40]], "kernScale": 1}
         case = {"cid": f"c12-{seed}-{k}", "lib": rng.choice(["ufoLib2", "defcon"]), "ufo": ufo}
         if k % 3 == 2 and len(names) >= 3:
@@ -100,7 +106,7 @@ def execute(case):
             back = dict(zip(rec["ret"]["order"], plain_order))
             ret = rec["ret"]
             ret["order"] = [back[n] for n in ret["order"]]
-            for key in ("adv", "outline"):
+            for key in ("adv", "outline", "cffAdv"):
                 if key in ret:
                     ret[key] = {back.get(n, n): val for n, val in ret[key].items()}
         lay = rec.pop("_layout", None)
